@@ -12,6 +12,7 @@ JOBS = [
     ("py2v_tempfile.py", "Gen/TempfileSkel.v"),
     ("pyx2v.py", "Gen/KernelPyx.v"),
     ("py2v_reject.py", "Gen/RejectSites.v"),
+    ("consts2v.py", "Gen/ConstsGen.v"),
 ]
 if __name__ == "__main__":
     repo, coq = sys.argv[1], sys.argv[2]
